@@ -81,6 +81,7 @@ type Inst struct {
 	// listener policy of the application: mode 0 = ApplyEvent for every block, 1 = from the ListenN-th block of
 	// the instance's life on, 2 = for every other block (odd ones)
 	ListenMode, ListenN int
+	Flags               int // 1: nil EndBlock on non-sealing blocks; 2: one-byte HighestBefore/LowestAfter caches
 	totalBlocks         int
 	lastCrit string
 	keepIndex bool // the next mkLachesis reuses the application's DagIndexer object
@@ -115,10 +116,17 @@ func (in *Inst) storeCfg() abft.StoreConfig {
 func (in *Inst) idxCfg() vecfc.IndexConfig {
 	c := vecfc.LiteConfig()
 	c.Caches.ForklessCausePairs = in.cfg.FcCap
+	if in.Flags&2 != 0 { // every vector is evicted at once: all reads go to the epoch DB
+		c.Caches.HighestBeforeSeqSize = 1
+		c.Caches.LowestAfterSeqSize = 1
+	}
 	return c
 }
 
 func (in *Inst) callbacks() lachesis.ConsensusCallbacks {
+	if in.ListenMode == 3 { // an application that installs no BeginBlock: frames are decided, nothing is reported
+		return lachesis.ConsensusCallbacks{}
+	}
 	return lachesis.ConsensusCallbacks{
 		BeginBlock: func(b *lachesis.Block) lachesis.BlockCallbacks {
 			in.totalBlocks++
@@ -130,6 +138,20 @@ func (in *Inst) callbacks() lachesis.ConsensusCallbacks {
 			if listen {
 				apply = func(e dag.Event) {
 					in.blocks[cur].Delivered = append(in.blocks[cur].Delivered, e.ID())
+				}
+			}
+			if in.Flags&1 != 0 {
+				// EndBlock is optional: leave it out on the blocks the sealing policy does not seal
+				seals := false
+				ep := uint32(in.store.GetEpoch())
+				for _, r := range in.policy {
+					if r.Epoch == ep && r.Block == in.nblocks+1 {
+						seals = true
+					}
+				}
+				if !seals {
+					in.nblocks++
+					return lachesis.BlockCallbacks{ApplyEvent: apply}
 				}
 			}
 			return lachesis.BlockCallbacks{
@@ -178,7 +200,12 @@ func (in *Inst) mkLachesis() {
 
 // NewInst applies the genesis and bootstraps.
 func NewInst(cfg Cfg, epoch uint32, vals []VW, policy []SealRule) *Inst {
-	in := &Inst{cfg: cfg, policy: policy, mainDB: memorydb.New(), epochDB: map[idx.Epoch]kvdb.Store{},
+	return NewInstOpts(cfg, epoch, vals, policy, 0, 0, 0)
+}
+
+// NewInstOpts is NewInst with the application-side options of the "L" header group.
+func NewInstOpts(cfg Cfg, epoch uint32, vals []VW, policy []SealRule, listenMode, listenN, flags int) *Inst {
+	in := &Inst{ListenMode: listenMode, ListenN: listenN, Flags: flags, cfg: cfg, policy: policy, mainDB: memorydb.New(), epochDB: map[idx.Epoch]kvdb.Store{},
 		events: &evStore{m: map[hash.Event]dag.Event{}}, proc: map[hash.Event]bool{}}
 	in.open()
 	if err := in.store.ApplyGenesis(&abft.Genesis{Epoch: idx.Epoch(epoch), Validators: BuildVals(vals)}); err != nil {
